@@ -274,12 +274,9 @@ pub fn parse_v1_mime_to_bpsv(raw_response: &[u8]) -> Result<BpsvDocument> {
 ///
 /// Quick check to determine response format
 pub fn is_v1_mime_response(raw_response: &[u8]) -> bool {
-    let response_str = String::from_utf8_lossy(raw_response);
-    let first_512 = if response_str.len() > 512 {
-        &response_str[..512]
-    } else {
-        &response_str
-    };
+    // Cut the raw bytes, not the decoded string: byte 512 of the string may fall
+    // inside a multi-byte character.
+    let first_512 = String::from_utf8_lossy(&raw_response[..raw_response.len().min(512)]);
 
     // Look for MIME headers indicating multipart content
     first_512.to_lowercase().contains("content-type:")
